@@ -42,6 +42,10 @@ KINDS = {
     "dangling": [("file", "f.txt", b"file f\n"), ("link", "dang.txt", "nowhere.txt")],
     "cycle": [("file", "f.txt", b"file f\n"), ("link", "c1", "c2"), ("link", "c2", "c1")],
     "html": [("file", "p.html", worlds.HTML)],
+    "bom-sidecar": [("file", "f.txt", b"file f\n"), ("file", "f.txt.abstract", b"\xef\xbb\xbfabstract that starts with a BOM\n")],
+    "bom-links": [("file", "f.txt", b"file f\n"), ("file", ".links", b"\xef\xbb\xbfName=First Link\nType=1\nPath=/x\nHost=h.example\nPort=70\n\nName=Second\nType=0\nPath=/y\nHost=h.example\nPort=70\n")],
+    "empty-dir": [("dir", "spool/"), ("link", "inbox", "spool"), ("file", "papers/p.txt", b"p\n"), ("link", "papers/upload-here", "../spool"),
+                  ("file", "menu/gophermap", b"1Drop box\t../spool\n0A file\t../papers/p.txt\n")],
     "latin1-sidecar": [("file", "menu.txt", b"menu\n"), ("file", "menu.txt.abstract", b"caf\xe9 au lait\n")],
     "latin1-names": [("file", "f.txt", b"file f\n"), ("file", ".names", b"Path=./f.txt\nName=caf\xe9 f\n")],
     "space": [("file", "sp ace/a&b.txt", b"odd names\n")],
